@@ -48,7 +48,7 @@ def obligations(tier: str) -> list[Ob]:
     )
     obs.append(
         harness_ob(
-            "dependencies_recorded_at_every_position", "C08_deps.py", tier, funcs=["dependants_are_removed"], timeout=400 if q else 1200, cpus=1, replay_func="vlib.props.C01:replay",
+            "dependencies_recorded_at_every_position", "C08_deps.py", tier, funcs=["dependants_are_removed", "rejected_duplicate_spares_the_existing_class"], timeout=400 if q else 1200, cpus=2, replay_func="vlib.props.C01:replay",
             encoded=["openapi_python_client.parser.properties:build_schemas", "openapi_python_client.parser.properties.union:UnionProperty.build"],
             bounds={"positions": 10, "failures": 3, "declaration orders": 6},
         )
